@@ -350,3 +350,819 @@ example :
     find v id "Object/Ext/Label".toList = .invalidParent 11 16 2 := by decide
 
 end HedVerif.C03
+
+namespace HedVerif.Schema
+
+/-! ### growth: soundness of registration, structural well-formedness -/
+
+theorem mem_suffixes {g m : Name} : g ∈ suffixes m ↔ g ≠ [] ∧ g <:+ m := by
+  induction m with
+  | nil => simp [suffixes]
+  | cons c cs ih =>
+    simp only [suffixes, List.mem_cons, ih, List.suffix_cons_iff]
+    constructor
+    · rintro (h | ⟨h1, h2⟩)
+      · subst h; exact ⟨by simp, Or.inl rfl⟩
+      · exact ⟨h1, Or.inr h2⟩
+    · rintro ⟨h1, h | h⟩
+      · exact Or.inl h
+      · exact Or.inr ⟨h1, h⟩
+
+theorem mem_forms {g m : Name} : g ∈ forms m ↔ g ≠ [] ∧ g <:+ m ∧ g ≠ [['#']] := by
+  simp only [forms, List.mem_filter, mem_suffixes, bne_iff_ne, ne_eq, and_assoc]
+
+theorem get_ne_none_of_mem (t : Table) (k : Name) (i : Nat) (h : (k, i) ∈ t) : t.get k ≠ none := by
+  unfold Table.get
+  intro hn
+  simp only [Option.map_eq_none_iff, List.find?_eq_none] at hn
+  exact hn (k, i) h (by simp)
+
+theorem register_dups_ge (fold : Str → Str) (rest : List Name) (i0 : Nat) (tbl : Table) (dups : List Nat) :
+    ∀ d ∈ (register fold rest i0 tbl dups).2, d ∈ dups ∨ i0 ≤ d := by
+  induction rest generalizing i0 tbl dups with
+  | nil => intro d hd; left; simpa [register] using hd
+  | cons n rest ih =>
+    intro d hd
+    simp only [register] at hd
+    split at hd
+    · rcases ih _ _ _ d hd with h | h
+      · rcases List.mem_cons.mp h with h | h
+        · right; omega
+        · left; exact h
+      · right; omega
+    · rcases ih _ _ _ d hd with h | h
+      · left; exact h
+      · right; omega
+
+/-- Every binding of the final table was there initially or is a folded form of a tag that was
+registered (not flagged as duplicate). -/
+theorem register_sound_aux (fold : Str → Str) (rest : List Name) (i0 : Nat) (tbl : Table) (dups : List Nat)
+    (hd : ∀ d ∈ dups, d < i0) (k : Name) (i : Nat) (h : (k, i) ∈ (register fold rest i0 tbl dups).1) :
+    (k, i) ∈ tbl ∨ ∃ p n, i = i0 + p ∧ rest[p]? = some n ∧ i ∉ (register fold rest i0 tbl dups).2 ∧
+      ∃ f ∈ forms n, k = foldName fold f := by
+  induction rest generalizing i0 tbl dups with
+  | nil => left; simpa [register] using h
+  | cons n rest ih =>
+    simp only [register] at h ⊢
+    split at h
+    · rename_i hdup
+      simp only [hdup, ↓reduceIte]
+      have hd' : ∀ d ∈ i0 :: dups, d < i0 + 1 := by
+        intro d hm
+        rcases List.mem_cons.mp hm with h | h
+        · omega
+        · have := hd d h; omega
+      rcases ih (i0 + 1) tbl (i0 :: dups) hd' h with h | ⟨p, m, h1, h2, h3, h4⟩
+      · left; exact h
+      · right; exact ⟨p + 1, m, by omega, by simpa using h2, h3, h4⟩
+    · rename_i hdup
+      simp only [hdup, Bool.false_eq_true, ↓reduceIte]
+      have hd' : ∀ d ∈ dups, d < i0 + 1 := fun d hm => by have := hd d hm; omega
+      rcases ih (i0 + 1) _ dups hd' h with h | ⟨p, m, h1, h2, h3, h4⟩
+      · rcases List.mem_append.mp h with h | h
+        · right
+          simp only [List.mem_reverse, List.mem_map, Prod.mk.injEq] at h
+          obtain ⟨f, hf, hk, hi⟩ := h
+          refine ⟨0, n, by omega, by simp, ?_, f, hf, hk.symm⟩
+          intro hmem
+          rcases register_dups_ge fold rest (i0 + 1) _ dups i hmem with h | h
+          · have := hd i h; omega
+          · omega
+        · left; exact h
+      · right; exact ⟨p + 1, m, by omega, by simpa using h2, h3, h4⟩
+
+/-- A flagged duplicate is a tag whose folded last component was, at that moment, already a key
+bound to an earlier index. -/
+theorem register_dups_spec (fold : Str → Str) (rest : List Name) (i0 : Nat) (tbl : Table) (dups : List Nat)
+    (ht : ∀ e ∈ tbl, e.2 < i0) (d : Nat) (h : d ∈ (register fold rest i0 tbl dups).2) :
+    d ∈ dups ∨ ∃ p n j, d = i0 + p ∧ rest[p]? = some n ∧ j < d ∧
+      ([fold (nameKey n)], j) ∈ (register fold rest i0 tbl dups).1 := by
+  induction rest generalizing i0 tbl dups with
+  | nil => left; simpa [register] using h
+  | cons n rest ih =>
+    simp only [register] at h ⊢
+    split at h
+    · rename_i hdup
+      simp only [hdup, ↓reduceIte]
+      have ht' : ∀ e ∈ tbl, e.2 < i0 + 1 := fun e he => by have := ht e he; omega
+      rcases ih (i0 + 1) tbl (i0 :: dups) ht' h with h | ⟨p, m, j, h1, h2, h3, h4⟩
+      · rcases List.mem_cons.mp h with h | h
+        · right
+          obtain ⟨j, hj⟩ := Option.isSome_iff_exists.mp hdup
+          have hm := get_some_mem _ _ _ hj
+          refine ⟨0, n, j, by omega, by simp, ?_, (register_mono fold rest (i0 + 1) tbl (i0 :: dups)).1 _ hm⟩
+          have := ht _ hm; simp only at this; omega
+        · left; exact h
+      · right; exact ⟨p + 1, m, j, by omega, by simpa using h2, h3, h4⟩
+    · rename_i hdup
+      simp only [hdup, Bool.false_eq_true, ↓reduceIte]
+      have ht' : ∀ e ∈ ((forms n).map fun f => (foldName fold f, i0)).reverse ++ tbl, e.2 < i0 + 1 := by
+        intro e he
+        rcases List.mem_append.mp he with he | he
+        · simp only [List.mem_reverse, List.mem_map] at he
+          obtain ⟨f, _, rfl⟩ := he; simp
+        · have := ht e he; omega
+      rcases ih (i0 + 1) _ dups ht' h with h | ⟨p, m, j, h1, h2, h3, h4⟩
+      · left; exact h
+      · right; exact ⟨p + 1, m, j, by omega, by simpa using h2, h3, h4⟩
+
+
+theorem nameKey_suffix {f n : Name} (hne : f ≠ []) (hs : f <:+ n) : nameKey n = nameKey f := by
+  obtain ⟨pre, rfl⟩ := hs
+  unfold nameKey
+  rw [List.getLast?_append]
+  cases h : f.getLast? with
+  | none => simp [List.getLast?_eq_none_iff] at h; exact absurd h hne
+  | some x => simp
+
+theorem getLast?_suffix {f n : Name} (hne : f ≠ []) (hs : f <:+ n) : n.getLast? = f.getLast? := by
+  obtain ⟨pre, rfl⟩ := hs
+  rw [List.getLast?_append]
+  cases h : f.getLast? with
+  | none => simp [List.getLast?_eq_none_iff] at h; exact absurd h hne
+  | some x => simp
+
+theorem getLast?_of_nameKey {n : Name} (h : nameKey n = ['#']) : n.getLast? = some ['#'] := by
+  unfold nameKey at h
+  cases hl : n.getLast? with
+  | none => simp [hl] at h
+  | some x => simp [hl] at h; simp [h]
+
+theorem nameKey_of_getLast? {n : Name} {x : Str} (h : n.getLast? = some x) : nameKey n = x := by
+  simp [nameKey, h]
+
+/-- the key that must be unique per tag: the last component, or for a `#` node the last two -/
+def shortKey (n : Name) : Name :=
+  if n.getLast? = some ['#'] then n.drop (n.length - 2) else [nameKey n]
+
+theorem foldName_length (fold : Str → Str) (n : Name) : (foldName fold n).length = n.length := by
+  simp [foldName]
+
+theorem shortKey_fold_value (fold : Str → Str) {f n : Name} (hf : f ∈ forms n)
+    (h : n.getLast? = some ['#']) :
+    foldName fold (shortKey n) = (foldName fold f).drop (f.length - 2) := by
+  obtain ⟨hne, hs, hv⟩ := mem_forms.mp hf
+  have hfl := (getLast?_suffix hne hs).symm.trans h
+  have h2 : 2 ≤ f.length := by
+    match f, hne, hv, hfl with
+    | [x], _, hv, hfl => simp at hfl; subst hfl; exact absurd rfl hv
+    | _ :: _ :: _, _, _, _ => simp
+  obtain ⟨pre, rfl⟩ := hs
+  simp only [shortKey, h, ↓reduceIte, foldName, List.length_append]
+  rw [← List.map_drop, show pre.length + f.length - 2 = pre.length + (f.length - 2) by omega,
+    ← List.drop_drop, List.drop_left]
+
+theorem shortKey_fold_plain (fold : Str → Str) {f n : Name} (hf : f ∈ forms n)
+    (h : n.getLast? ≠ some ['#']) :
+    foldName fold (shortKey n) = (foldName fold f).drop (f.length - 1) := by
+  obtain ⟨hne, hs, _⟩ := mem_forms.mp hf
+  simp only [shortKey, h, ↓reduceIte, nameKey_suffix hne hs]
+  obtain ⟨a, x, rfl⟩ : ∃ a x, f = a ++ [x] := ⟨f.dropLast, f.getLast hne, (List.dropLast_concat_getLast hne).symm⟩
+  simp [foldName, nameKey]
+
+/-- first clause of `ShortDistinct`-style reasoning: two forms with the same folded spelling belong to
+tags with the same folded short key -/
+theorem shortKey_fold_eq (fold : Str → Str) {f g n m : Name} (hf : f ∈ forms n) (hg : g ∈ forms m)
+    (h : foldName fold f = foldName fold g)
+    (hn : fold (nameKey n) = fold ['#'] → nameKey n = ['#'])
+    (hm : fold (nameKey m) = fold ['#'] → nameKey m = ['#']) :
+    foldName fold (shortKey n) = foldName fold (shortKey m) := by
+  have hlen : f.length = g.length := by
+    have := congrArg List.length h; simpa [foldName] using this
+  obtain ⟨hfne, hfs, _⟩ := mem_forms.mp hf
+  obtain ⟨hgne, hgs, _⟩ := mem_forms.mp hg
+  have hkey : fold (nameKey n) = fold (nameKey m) := by
+    have a := shortKey_fold_plain fold (f := f) (n := f) (mem_forms.mpr ⟨hfne, List.suffix_refl _, (mem_forms.mp hf).2.2⟩)
+    have b := shortKey_fold_plain fold (f := g) (n := g) (mem_forms.mpr ⟨hgne, List.suffix_refl _, (mem_forms.mp hg).2.2⟩)
+    rw [nameKey_suffix hfne hfs, nameKey_suffix hgne hgs]
+    by_cases h1 : f.getLast? = some ['#']
+    · have h2 : g.getLast? = some ['#'] := by
+        have e1 : nameKey f = ['#'] := nameKey_of_getLast? h1
+        have : fold (nameKey g) = fold ['#'] := by
+          have := congrArg (fun l => l.getLast?) h
+          simp only [foldName, List.getLast?_map, h1, Option.map_some] at this
+          cases hl : g.getLast? with
+          | none => simp [hl] at this
+          | some x => simp [hl] at this; simp [nameKey, hl, this]
+        have := hm (by rw [nameKey_suffix hgne hgs]; exact this)
+        rw [nameKey_suffix hgne hgs] at this
+        exact getLast?_of_nameKey this
+      rw [nameKey_of_getLast? h1, nameKey_of_getLast? h2]
+    · by_cases h2 : g.getLast? = some ['#']
+      · exfalso
+        have : fold (nameKey f) = fold ['#'] := by
+          have := congrArg (fun l => l.getLast?) h
+          simp only [foldName, List.getLast?_map, h2, Option.map_some] at this
+          cases hl : f.getLast? with
+          | none => simp [hl] at this
+          | some x => simp [hl] at this; simp [nameKey, hl, this]
+        have := hn (by rw [nameKey_suffix hfne hfs]; exact this)
+        rw [nameKey_suffix hfne hfs] at this
+        exact h1 (getLast?_of_nameKey this)
+      · have a' := a h1
+        have b' := b h2
+        simp only [shortKey, h1, h2, ↓reduceIte, foldName, List.map_cons, List.map_nil] at a' b'
+        have : [fold (nameKey f)] = [fold (nameKey g)] := by
+          rw [a', b']; simp only [foldName] at h; rw [h, hlen]
+        simpa using this
+  by_cases h1 : n.getLast? = some ['#']
+  · have h2 : m.getLast? = some ['#'] := by
+      apply getLast?_of_nameKey
+      apply hm
+      rw [← hkey, nameKey_of_getLast? h1]
+    rw [shortKey_fold_value fold hf h1, shortKey_fold_value fold hg h2, h, hlen]
+  · have h2 : m.getLast? ≠ some ['#'] := by
+      intro h2
+      apply h1
+      apply getLast?_of_nameKey
+      apply hn
+      rw [hkey, nameKey_of_getLast? h2]
+    rw [shortKey_fold_plain fold hf h1, shortKey_fold_plain fold hg h2, h, hlen]
+
+end HedVerif.Schema
+
+namespace HedVerif.C03
+open HedVerif.Schema
+
+theorem build_table (fold : Str → Str) (tags : List Name) :
+    (Vocab.build fold tags).table = (register fold tags 0 [] []).1 := rfl
+theorem build_dups (fold : Str → Str) (tags : List Name) :
+    (Vocab.build fold tags).dups = (register fold tags 0 [] []).2 := rfl
+theorem build_name (fold : Str → Str) (tags : List Name) (i : Nat) :
+    (Vocab.build fold tags).name i = tags[i]?.getD [] := by simp [Vocab.build, Vocab.name]
+
+/-- **Registration is sound** (converse of `register_complete`): every binding `(k, i)` of the
+dictionary comes from tag `i`, which was not flagged as duplicate, and `k` is the folded spelling of one
+of its suffix forms. -/
+theorem register_sound (fold : Str → Str) (tags : List Name) (k : Name) (i : Nat)
+    (h : (k, i) ∈ (Vocab.build fold tags).table) :
+    i ∉ (Vocab.build fold tags).dups ∧ ∃ n, tags[i]? = some n ∧ ∃ f ∈ forms n, k = foldName fold f := by
+  rw [build_table] at h
+  rcases register_sound_aux fold tags 0 [] [] (by simp) k i h with h | ⟨p, n, h1, h2, h3, h4⟩
+  · cases h
+  · have : i = p := by omega
+    subst this
+    exact ⟨h3, n, h2, h4⟩
+
+/-- `register_complete` at the top level -/
+theorem registered_mem (fold : Str → Str) (tags : List Name) (i : Nat) (n : Name)
+    (hi : tags[i]? = some n) (hnd : i ∉ (Vocab.build fold tags).dups) (f : Name) (hf : f ∈ forms n) :
+    (foldName fold f, i) ∈ (Vocab.build fold tags).table := by
+  have := register_complete fold tags 0 [] [] i n hi (by simpa [build_dups] using hnd) f hf
+  simpa [build_table] using this
+
+/-- parents are tags: every non-empty proper prefix of a long name is itself a long name -/
+def TreeClosed (tags : List Name) : Prop := ∀ n ∈ tags, ∀ b, b < n.length → 0 < b → n.take b ∈ tags
+
+instance (tags : List Name) : Decidable (TreeClosed tags) := by unfold TreeClosed; infer_instance
+
+/-- short names are unique after folding (for `#` nodes: together with the parent's short name), and only
+`#` folds to what `#` folds to -/
+def ShortDistinct (fold : Str → Str) (tags : List Name) : Prop :=
+  (tags.map fun n => foldName fold (shortKey n)).Nodup ∧
+  ∀ n ∈ tags, fold (nameKey n) = fold ['#'] → nameKey n = ['#']
+
+instance (fold : Str → Str) (tags : List Name) : Decidable (ShortDistinct fold tags) := by
+  unfold ShortDistinct; infer_instance
+
+theorem TreeClosed.prefix_mem {tags : List Name} (h : TreeClosed tags) {n p : Name} (hn : n ∈ tags)
+    (hp : p ≠ []) (hpre : p <+: n) : p ∈ tags := by
+  have e := List.prefix_iff_eq_take.mp hpre
+  have hle := hpre.length_le
+  by_cases hlt : p.length < n.length
+  · rw [e]; exact h n hn _ hlt (List.length_pos_iff.mpr hp)
+  · have : p.length = n.length := by omega
+    rw [e, this, List.take_length]; exact hn
+
+/-- the condition as the driver evaluates it: the parent of every tag of depth ≥ 2 is a tag -/
+theorem treeClosed_iff_parents (tags : List Name) :
+    TreeClosed tags ↔ ∀ n ∈ tags, 2 ≤ n.length → n.dropLast ∈ tags := by
+  constructor
+  · intro h n hn h2
+    rw [List.dropLast_eq_take]
+    exact h n hn _ (by omega) (by omega)
+  · intro h
+    have key : ∀ k, ∀ n ∈ tags, 1 ≤ n.length - k → n.take (n.length - k) ∈ tags := by
+      intro k
+      induction k with
+      | zero => intro n hn _; simpa using hn
+      | succ k ih =>
+        intro n hn h1
+        have hp := ih n hn (by omega)
+        have := h _ hp (by simp; omega)
+        rw [List.dropLast_eq_take, List.take_take] at this
+        have e : min ((n.take (n.length - k)).length - 1) (n.length - k) = n.length - (k + 1) := by
+          simp; omega
+        rwa [e] at this
+    intro n hn b hb h0
+    have := key (n.length - b) n hn (by omega)
+    rwa [show n.length - (n.length - b) = b by omega] at this
+
+theorem ShortDistinct.inj {fold : Str → Str} {tags : List Name} (h : ShortDistinct fold tags)
+    {i j : Nat} {n m : Name} (hi : tags[i]? = some n) (hj : tags[j]? = some m)
+    (he : foldName fold (shortKey n) = foldName fold (shortKey m)) : i = j := by
+  have hlt : i < (tags.map fun n => foldName fold (shortKey n)).length := by
+    have := (List.getElem?_eq_some_iff.mp hi).1; simpa using this
+  apply (List.getElem?_inj hlt h.1).mp
+  simp [List.getElem?_map, hi, hj, he]
+
+/-- **Well-formedness from two readable conditions (only the second is needed here).** If folded short
+names are pairwise distinct, every key of the dictionary is bound to one entry. -/
+theorem wf_of_shortDistinct (fold : Str → Str) (tags : List Name) (hsd : ShortDistinct fold tags) :
+    WF (Vocab.build fold tags) := by
+  intro k i j hi hj
+  obtain ⟨_, n, hn, f, hf, hkf⟩ := register_sound fold tags k i hi
+  obtain ⟨_, m, hm, g, hg, hkg⟩ := register_sound fold tags k j hj
+  exact hsd.inj hn hm (shortKey_fold_eq fold hf hg (hkf.symm.trans hkg)
+    (hsd.2 n (List.mem_of_getElem? hn)) (hsd.2 m (List.mem_of_getElem? hm)))
+
+/-- ... and the loader flags no duplicate. -/
+theorem dups_nil_of_shortDistinct (fold : Str → Str) (tags : List Name) (hsd : ShortDistinct fold tags) :
+    (Vocab.build fold tags).dups = [] := by
+  apply List.eq_nil_iff_forall_not_mem.mpr
+  intro d hd
+  rw [build_dups] at hd
+  rcases register_dups_spec fold tags 0 [] [] (by simp) d hd with h | ⟨p, n, j, h1, h2, h3, h4⟩
+  · cases h
+  · have : d = p := by omega
+    subst this
+    obtain ⟨_, m, hm, g, hg, hkg⟩ := register_sound fold tags _ j h4
+    have hn2 := hsd.2 n (List.mem_of_getElem? h2)
+    have hm2 := hsd.2 m (List.mem_of_getElem? hm)
+    obtain ⟨hgne, hgs, hgv⟩ := mem_forms.mp hg
+    -- g = [x], x the last component of m, x ≠ '#'
+    have hg1 : ∃ x, g = [x] := by
+      have := congrArg List.length hkg
+      simp only [List.length_cons, List.length_nil, foldName_length] at this
+      match g, this with
+      | [x], _ => exact ⟨x, rfl⟩
+    obtain ⟨x, rfl⟩ := hg1
+    have hx : nameKey m = x := by rw [nameKey_suffix hgne hgs]; simp [nameKey]
+    have hxv : x ≠ ['#'] := fun e => hgv (by rw [e])
+    have hfx : fold (nameKey n) = fold x := by simpa [foldName] using hkg
+    have hmv : m.getLast? ≠ some ['#'] := fun e => hxv (hx ▸ nameKey_of_getLast? e)
+    have hnv : n.getLast? ≠ some ['#'] := by
+      intro e
+      apply hxv
+      rw [← hx]; apply hm2
+      rw [hx, ← hfx, nameKey_of_getLast? e]
+    have : d = j := hsd.inj h2 hm (by simp [shortKey, hnv, hmv, foldName, hfx, hx])
+    omega
+
+
+/-- Under `TreeClosed`, a prefix of a suffix form is a suffix form of an ancestor (which is a tag). -/
+theorem prefix_form {tags : List Name} (htc : TreeClosed tags) {pre g : Name} (hn : pre ++ g ∈ tags)
+    (b : Nat) (hb1 : 1 ≤ b) (hb : b ≤ g.length) (hv : g.take b ≠ [['#']]) :
+    ∃ a : Nat, tags[a]? = some (pre ++ g.take b) ∧ g.take b ∈ forms (pre ++ g.take b) := by
+  have hne : g.take b ≠ [] := by
+    intro h; have := congrArg List.length h
+    rw [List.length_take] at this; simp only [List.length_nil] at this; omega
+  have hmem : pre ++ g.take b ∈ tags :=
+    htc.prefix_mem hn (by simp [hne]) ((List.prefix_append_right_inj pre).mpr (List.take_prefix b g))
+  obtain ⟨a, ha⟩ := List.getElem?_of_mem hmem
+  exact ⟨a, ha, mem_forms.mpr ⟨hne, List.suffix_append _ _, hv⟩⟩
+
+/-- **Prefixes of a spelling are known.** For a registered tag `n` without `#` component, a suffix form
+`n.drop j` and any case variant `f'` of it, the first `m` components of the folded spelling are a key
+bound to (the index of) the ancestor `n.take (j+m)`; the whole spelling is bound to `n` itself.  This is
+the `hknown` hypothesis of `remainder_verbatim`. -/
+theorem prefixes_known (fold : Str → Str) (tags : List Name) (htc : TreeClosed tags)
+    (hd : (Vocab.build fold tags).dups = []) (hwf : WF (Vocab.build fold tags))
+    (i : Nat) (n : Name) (hi : tags[i]? = some n) (hv : ['#'] ∉ n) (j : Nat) (hj : j < n.length)
+    (f' : Name) (hcase : foldName fold f' = foldName fold (n.drop j)) :
+    (Vocab.build fold tags).table.get (foldName fold f') = some i ∧
+    ∀ m, 1 ≤ m → m ≤ n.length - j → ∃ a, tags[a]? = some (n.take (j + m)) ∧
+      (Vocab.build fold tags).table.get ((foldName fold f').take m) = some a := by
+  have hnd : ∀ a, a ∉ (Vocab.build fold tags).dups := by simp [hd]
+  have hsplit : n.take j ++ n.drop j = n := List.take_append_drop j n
+  have hnov : ∀ m, (n.drop j).take m ≠ [['#']] := by
+    intro m h
+    apply hv
+    have : ['#'] ∈ (n.drop j).take m := by rw [h]; simp
+    exact List.mem_of_mem_drop (List.mem_of_mem_take this)
+  constructor
+  · rw [hcase]
+    apply direct_hit fold tags i n hi (hnd i) hwf
+    refine mem_forms.mpr ⟨?_, List.drop_suffix j n, ?_⟩
+    · intro h; have := congrArg List.length h; simp at this; omega
+    · have := hnov (n.drop j).length; rwa [List.take_length] at this
+  · intro m hm1 hm
+    have hn : n.take j ++ n.drop j ∈ tags := by rw [hsplit]; exact List.mem_of_getElem? hi
+    obtain ⟨a, ha, hfa⟩ := prefix_form htc hn m hm1 (by simpa using hm) (hnov m)
+    refine ⟨a, by rw [List.take_add]; exact ha, ?_⟩
+    rw [hcase]
+    have := direct_hit fold tags a _ ha (hnd a) hwf _ hfa
+    simpa [foldName, List.map_take] using this
+
+/-- Keys are closed under prefixes of length ≥ 2 (a prefix of length 1 may be the bare `#`). -/
+theorem key_prefix (fold : Str → Str) (tags : List Name) (htc : TreeClosed tags)
+    (hd : (Vocab.build fold tags).dups = []) (k : Name) (c : Nat)
+    (h : (k, c) ∈ (Vocab.build fold tags).table) (b : Nat) (hb2 : 2 ≤ b) (hb : b ≤ k.length) :
+    ∃ c', (k.take b, c') ∈ (Vocab.build fold tags).table := by
+  obtain ⟨_, m, hm, g, hg, rfl⟩ := register_sound fold tags k c h
+  obtain ⟨_, ⟨pre, rfl⟩, _⟩ := mem_forms.mp hg
+  rw [foldName_length] at hb
+  have hv : g.take b ≠ [['#']] := by
+    intro e; have := congrArg List.length e; simp at this; omega
+  obtain ⟨a, ha, hfa⟩ := prefix_form htc (List.mem_of_getElem? hm) b (by omega) hb hv
+  refine ⟨a, ?_⟩
+  have := registered_mem fold tags a _ ha (by simp [hd]) _ hfa
+  simpa [foldName, List.map_take] using this
+
+theorem get_none_of_prefix (fold : Str → Str) (tags : List Name) (htc : TreeClosed tags)
+    (hd : (Vocab.build fold tags).dups = []) (k : Name) (b : Nat) (hb2 : 2 ≤ b) (hb : b ≤ k.length)
+    (h : (Vocab.build fold tags).table.get (k.take b) = none) :
+    (Vocab.build fold tags).table.get k = none := by
+  cases hk : (Vocab.build fold tags).table.get k with
+  | none => rfl
+  | some c =>
+    obtain ⟨c', hc'⟩ := key_prefix fold tags htc hd k c (get_some_mem _ _ _ hk) b hb2 hb
+    exact absurd h (get_ne_none_of_mem _ _ _ hc')
+
+theorem badTerm_none (tbl : Table) (pos : Nat) (l : Name) (h : ∀ c ∈ l, tbl.get [c] = none) :
+    badTerm tbl pos l = none := by
+  induction l generalizing pos with
+  | nil => rfl
+  | cons c cs ih =>
+    simp only [badTerm, h c (by simp)]
+    exact ih _ (fun x hx => h x (List.mem_cons_of_mem _ hx))
+
+/-- **Extension / value after any spelling of a tag (all cases).**  `f'` is a case variant of the suffix
+form `n.drop j` of the registered tag `n` (index `i`); `e₀ :: es` is what follows.  If `e₀` does not
+continue the form to a known key, lookup stops at `n`: it answers the `#` child of `n` when there is one,
+the invalid-parent error when some remaining term is itself a tag, and `n` otherwise — in both positive
+cases with the remainder `/e₀/…` exactly as written. -/
+theorem extension_cases (fold : Str → Str) (tags : List Name) (htc : TreeClosed tags)
+    (hd : (Vocab.build fold tags).dups = []) (hwf : WF (Vocab.build fold tags))
+    (i : Nat) (n : Name) (hi : tags[i]? = some n) (hv : ['#'] ∉ n) (j : Nat) (hj : j < n.length)
+    (f' : Name) (hcase : foldName fold f' = foldName fold (n.drop j)) (e0 : Str) (es : Name)
+    (hstop : (Vocab.build fold tags).table.get (foldName fold (n.drop j ++ [e0])) = none) :
+    findComps (Vocab.build fold tags) fold (f' ++ e0 :: es) =
+      match (Vocab.build fold tags).valueChild fold i with
+      | some ch => .found ch ('/' :: joinSlash (e0 :: es))
+      | none =>
+        match badTerm (Vocab.build fold tags).table (joinLen f' + 1) (foldName fold (e0 :: es)) with
+        | some (a, b, x) => .invalidParent a b x
+        | none => .found i ('/' :: joinSlash (e0 :: es)) := by
+  obtain ⟨hfull, hpre⟩ := prefixes_known fold tags htc hd hwf i n hi hv j hj f' hcase
+  have hlen : f'.length = n.length - j := by
+    have := congrArg List.length hcase; simpa [foldName] using this
+  have hw : foldName fold (f' ++ e0 :: es) = foldName fold f' ++ fold e0 :: foldName fold es := by
+    simp [foldName]
+  have hstop' : (Vocab.build fold tags).table.get ((foldName fold (f' ++ e0 :: es)).take (f'.length + 1)) = none := by
+    have : (foldName fold (f' ++ e0 :: es)).take (f'.length + 1) = foldName fold (n.drop j ++ [e0]) := by
+      rw [hw, ← foldName_length fold f', List.take_add, List.take_left, List.drop_left]
+      simp only [foldName] at hcase ⊢
+      simp [hcase]
+    rw [this]; exact hstop
+  have hnot : (Vocab.build fold tags).table.get (foldName fold (f' ++ e0 :: es)) = none :=
+    get_none_of_prefix fold tags htc hd _ (f'.length + 1) (by omega) (by simp [foldName]) hstop'
+  have hknown : ∀ m, 1 ≤ m → m ≤ f'.length →
+      (Vocab.build fold tags).table.get ((foldName fold (f' ++ e0 :: es)).take m) =
+        some (((Vocab.build fold tags).table.get ((foldName fold f').take m)).getD 0) := by
+    intro m hm1 hm
+    rw [hw, List.take_append_of_le_length (by rw [foldName_length]; exact hm)]
+    obtain ⟨a, _, ha⟩ := hpre m hm1 (by omega)
+    simp [ha]
+  have := remainder_verbatim (Vocab.build fold tags) fold (f' ++ e0 :: es)
+    (fun m => ((Vocab.build fold tags).table.get ((foldName fold f').take m)).getD 0) f'.length
+    (by omega) (by simp) hnot hknown hstop'
+  rw [this]
+  have hek : ((Vocab.build fold tags).table.get ((foldName fold f').take f'.length)).getD 0 = i := by
+    rw [← foldName_length fold f', List.take_length, hfull]; rfl
+  simp only [hek, List.drop_left, List.take_left]
+  have : (foldName fold (f' ++ e0 :: es)).drop f'.length = foldName fold (e0 :: es) := by
+    rw [hw, ← foldName_length fold f', List.drop_left]; simp [foldName]
+  rw [this] <;> rfl
+
+/-- **Extension carried over verbatim** (closed form): `n` has no `#` child, the first extension term is
+not a child of `n`, no extension term is itself a tag: any spelling of `n` followed by the extension
+resolves to `n` with the extension as written. -/
+theorem extension_resolves (fold : Str → Str) (tags : List Name) (htc : TreeClosed tags)
+    (hd : (Vocab.build fold tags).dups = []) (hwf : WF (Vocab.build fold tags))
+    (i : Nat) (n : Name) (hi : tags[i]? = some n) (hv : ['#'] ∉ n) (j : Nat) (hj : j < n.length)
+    (f' : Name) (hcase : foldName fold f' = foldName fold (n.drop j)) (e0 : Str) (es : Name)
+    (hstop : (Vocab.build fold tags).table.get (foldName fold (n.drop j ++ [e0])) = none)
+    (hnoval : (Vocab.build fold tags).valueChild fold i = none)
+    (hterms : ∀ c ∈ e0 :: es, (Vocab.build fold tags).table.get [fold c] = none) :
+    findComps (Vocab.build fold tags) fold (f' ++ e0 :: es) = .found i ('/' :: joinSlash (e0 :: es)) := by
+  rw [extension_cases fold tags htc hd hwf i n hi hv j hj f' hcase e0 es hstop, hnoval]
+  simp only
+  rw [badTerm_none]
+  intro c hc
+  simp only [foldName, List.mem_map] at hc
+  obtain ⟨c0, hc0, rfl⟩ := hc
+  exact hterms c0 hc0
+
+/-- **Value carried over verbatim**: `n` has the `#` child `ch`; any spelling of `n` followed by a value
+(whose first term is not a child of `n`) resolves to `ch` with the value as written. -/
+theorem value_resolves (fold : Str → Str) (tags : List Name) (htc : TreeClosed tags)
+    (hd : (Vocab.build fold tags).dups = []) (hwf : WF (Vocab.build fold tags))
+    (i : Nat) (n : Name) (hi : tags[i]? = some n) (hv : ['#'] ∉ n) (j : Nat) (hj : j < n.length)
+    (f' : Name) (hcase : foldName fold f' = foldName fold (n.drop j)) (e0 : Str) (es : Name)
+    (hstop : (Vocab.build fold tags).table.get (foldName fold (n.drop j ++ [e0])) = none)
+    (ch : Nat) (hval : (Vocab.build fold tags).valueChild fold i = some ch) :
+    findComps (Vocab.build fold tags) fold (f' ++ e0 :: es) = .found ch ('/' :: joinSlash (e0 :: es)) := by
+  rw [extension_cases fold tags htc hd hwf i n hi hv j hj f' hcase e0 es hstop, hval]
+
+/-- the `#` child of the model is the tag `n/#` when that is a tag -/
+theorem valueChild_of_tag (fold : Str → Str) (tags : List Name) (hd : (Vocab.build fold tags).dups = [])
+    (hwf : WF (Vocab.build fold tags)) (i ch : Nat) (n : Name) (hi : tags[i]? = some n) (hne : n ≠ [])
+    (hch : tags[ch]? = some (n ++ [['#']])) :
+    (Vocab.build fold tags).valueChild fold i = some ch := by
+  unfold Vocab.valueChild
+  rw [build_name, hi]
+  apply direct_hit fold tags ch _ hch (by simp [hd]) hwf
+  refine mem_forms.mpr ⟨by simp, List.suffix_refl _, ?_⟩
+  intro e; have := congrArg List.length e; simp at this
+  exact hne this
+
+
+theorem drop_mem_forms {n : Name} (hv : ['#'] ∉ n) {j : Nat} (hj : j < n.length) : n.drop j ∈ forms n := by
+  refine mem_forms.mpr ⟨?_, List.drop_suffix j n, ?_⟩
+  · intro h; have := congrArg List.length h; simp at this; omega
+  · intro h; apply hv
+    have : ['#'] ∈ n.drop j := by rw [h]; simp
+    exact List.mem_of_mem_drop this
+
+theorem drop_last {n : Name} {last : Str} (h : n.getLast? = some last) : n.drop (n.length - 1) = [last] := by
+  obtain ⟨a, rfl⟩ := List.getLast?_eq_some_iff.mp h
+  simp
+
+/-- A key that extends a spelling of `n` by one component is a spelling of a child of `n`. -/
+theorem child_key (fold : Str → Str) (tags : List Name) (htc : TreeClosed tags)
+    (hd : (Vocab.build fold tags).dups = []) (hwf : WF (Vocab.build fold tags))
+    (i : Nat) (n : Name) (hi : tags[i]? = some n) (hv : ['#'] ∉ n) (last : Str)
+    (hlast : n.getLast? = some last) (hfold : fold last ≠ fold ['#']) (j : Nat) (hj : j < n.length)
+    (e0 : Str) (c : Nat)
+    (h : (foldName fold (n.drop j ++ [e0]), c) ∈ (Vocab.build fold tags).table) :
+    ∃ x, fold x = fold e0 ∧ tags[c]? = some (n ++ [x]) := by
+  have hnd : ∀ a, a ∉ (Vocab.build fold tags).dups := by simp [hd]
+  obtain ⟨_, m, hm, h', hh', hk⟩ := register_sound fold tags _ c h
+  simp only [foldName, List.map_append, List.map_cons, List.map_nil] at hk
+  obtain ⟨h0, l2, rfl, hk0, hk2⟩ := List.map_eq_append_iff.mp hk.symm
+  obtain ⟨x, rfl, hx⟩ := List.map_eq_singleton_iff.mp hk2
+  obtain ⟨_, ⟨pre, hpre⟩, _⟩ := mem_forms.mp hh'
+  have hlen0 : h0.length = n.length - j := by
+    have := congrArg List.length hk0; simpa using this
+  have h0ne : h0 ≠ [] := by
+    intro e; rw [e] at hlen0; simp at hlen0; omega
+  have hP : pre ++ h0 ∈ tags := by
+    apply htc.prefix_mem (List.mem_of_getElem? hm) (by simp [h0ne])
+    rw [← hpre, ← List.append_assoc]; exact List.prefix_append _ _
+  obtain ⟨c', hc'⟩ := List.getElem?_of_mem hP
+  have h0v : h0 ≠ [['#']] := by
+    intro e
+    rw [e] at hk0
+    simp only [List.map_cons, List.map_nil] at hk0
+    obtain ⟨y, hy, hfy⟩ := List.map_eq_singleton_iff.mp hk0.symm
+    have hjl : j = n.length - 1 := by
+      have := congrArg List.length hy; simp at this; omega
+    rw [hjl, drop_last hlast] at hy
+    simp only [List.cons.injEq, and_true] at hy
+    exact hfold (hy ▸ hfy)
+  have hf0 : h0 ∈ forms (pre ++ h0) := mem_forms.mpr ⟨h0ne, List.suffix_append _ _, h0v⟩
+  have m1 := registered_mem fold tags c' _ hc' (hnd c') _ hf0
+  have m2 := registered_mem fold tags i n hi (hnd i) _ (drop_mem_forms hv hj)
+  simp only [foldName] at m1 m2
+  rw [hk0] at m1
+  have : c' = i := hwf _ _ _ m1 m2
+  subst this
+  have hPn : pre ++ h0 = n := by rw [hi] at hc'; exact (Option.some.inj hc').symm
+  refine ⟨x, hx, ?_⟩
+  rw [hm, ← hpre, ← List.append_assoc, hPn]
+
+/-- ... and conversely every spelling of `n` extended by a child's name is a key. -/
+theorem child_key_conv (fold : Str → Str) (tags : List Name) (hd : (Vocab.build fold tags).dups = [])
+    (n : Name) (x e0 : Str) (hx : fold x = fold e0) (c : Nat) (hc : tags[c]? = some (n ++ [x]))
+    (j : Nat) (hj : j < n.length) :
+    (foldName fold (n.drop j ++ [e0]), c) ∈ (Vocab.build fold tags).table := by
+  have hf : n.drop j ++ [x] ∈ forms (n ++ [x]) := by
+    refine mem_forms.mpr ⟨by simp, ?_, ?_⟩
+    · rw [← List.drop_append_of_le_length (by omega)]; exact List.drop_suffix _ _
+    · intro e; have := congrArg List.length e; simp at this; omega
+  have := registered_mem fold tags c _ hc (by simp [hd]) _ hf
+  simpa [foldName, hx] using this
+
+/-- **The stop condition does not depend on the spelling**: if `e₀` does not continue one suffix form of
+`n` to a key, it does not continue any other (in particular the short and the long form). -/
+theorem stop_transfer (fold : Str → Str) (tags : List Name) (htc : TreeClosed tags)
+    (hd : (Vocab.build fold tags).dups = []) (hwf : WF (Vocab.build fold tags))
+    (i : Nat) (n : Name) (hi : tags[i]? = some n) (hv : ['#'] ∉ n) (last : Str)
+    (hlast : n.getLast? = some last) (hfold : fold last ≠ fold ['#']) (j j' : Nat) (hj : j < n.length)
+    (hj' : j' < n.length) (e0 : Str)
+    (hstop : (Vocab.build fold tags).table.get (foldName fold (n.drop j ++ [e0])) = none) :
+    (Vocab.build fold tags).table.get (foldName fold (n.drop j' ++ [e0])) = none := by
+  cases hk : (Vocab.build fold tags).table.get (foldName fold (n.drop j' ++ [e0])) with
+  | none => rfl
+  | some c =>
+    obtain ⟨x, hx, hc⟩ := child_key fold tags htc hd hwf i n hi hv last hlast hfold j' hj' e0 c
+      (get_some_mem _ _ _ hk)
+    exact absurd hstop (get_ne_none_of_mem _ _ _ (child_key_conv fold tags hd n x e0 hx c hc j hj))
+
+theorem badTerm_eq_none_iff (tbl : Table) (pos : Nat) (l : Name) :
+    badTerm tbl pos l = none ↔ ∀ c ∈ l, tbl.get [c] = none := by
+  refine ⟨?_, badTerm_none tbl pos l⟩
+  induction l generalizing pos with
+  | nil => simp
+  | cons c cs ih =>
+    intro h
+    simp only [badTerm] at h
+    cases hc : tbl.get [c] with
+    | some e => simp [hc] at h
+    | none =>
+      simp only [hc] at h
+      intro x hx
+      rcases List.mem_cons.mp hx with rfl | hx
+      · exact hc
+      · exact ih _ h x hx
+
+/-- **Forms with value / extension.** Whenever a spelling `f'` (case variant of a suffix form of `n`)
+followed by `e₀/…` resolves, the short form and the long form of `n` (in any case) followed by the same
+text resolve to the same node with the same remainder, which is the text as written; the node is the
+`#` child of `n` when there is one and `n` otherwise. -/
+theorem forms_roundtrip_remainder (fold : Str → Str) (tags : List Name) (htc : TreeClosed tags)
+    (hd : (Vocab.build fold tags).dups = []) (hwf : WF (Vocab.build fold tags))
+    (i : Nat) (n : Name) (hi : tags[i]? = some n) (hv : ['#'] ∉ n) (last : Str)
+    (hlast : n.getLast? = some last) (hfold : fold last ≠ fold ['#']) (j : Nat) (hj : j < n.length)
+    (f' : Name) (hcase : foldName fold f' = foldName fold (n.drop j)) (e0 : Str) (es : Name)
+    (hstop : (Vocab.build fold tags).table.get (foldName fold (n.drop j ++ [e0])) = none)
+    (s l : Name) (hs : foldName fold s = foldName fold [last]) (hl : foldName fold l = foldName fold n)
+    (i' : Nat) (r : Str)
+    (hres : findComps (Vocab.build fold tags) fold (f' ++ e0 :: es) = .found i' r) :
+    r = '/' :: joinSlash (e0 :: es) ∧
+    ((Vocab.build fold tags).valueChild fold i = some i' ∨
+      ((Vocab.build fold tags).valueChild fold i = none ∧ i' = i)) ∧
+    findComps (Vocab.build fold tags) fold (s ++ e0 :: es) = .found i' r ∧
+    findComps (Vocab.build fold tags) fold (l ++ e0 :: es) = .found i' r := by
+  have hn0 : 0 < n.length := by omega
+  have hs0 := stop_transfer fold tags htc hd hwf i n hi hv last hlast hfold j (n.length - 1) hj (by omega) e0 hstop
+  have hl0 := stop_transfer fold tags htc hd hwf i n hi hv last hlast hfold j 0 hj hn0 e0 hstop
+  have A := extension_cases fold tags htc hd hwf i n hi hv j hj f' hcase e0 es hstop
+  have B := extension_cases fold tags htc hd hwf i n hi hv (n.length - 1) (by omega) s
+    (by rw [drop_last hlast]; exact hs) e0 es hs0
+  have C := extension_cases fold tags htc hd hwf i n hi hv 0 hn0 l (by simpa using hl) e0 es hl0
+  cases hvc : (Vocab.build fold tags).valueChild fold i with
+  | some ch =>
+    simp only [hvc] at A B C
+    rw [A] at hres
+    injection hres with h1 h2
+    subst h1; subst h2
+    exact ⟨rfl, Or.inl rfl, B, C⟩
+  | none =>
+    simp only [hvc] at A B C
+    by_cases hall : ∀ c ∈ foldName fold (e0 :: es), (Vocab.build fold tags).table.get [c] = none
+    · rw [badTerm_none _ _ _ hall] at A B C
+      simp only at A B C
+      rw [A] at hres
+      injection hres with h1 h2
+      subst h1; subst h2
+      exact ⟨rfl, Or.inr ⟨rfl, rfl⟩, B, C⟩
+    · exfalso
+      cases hb : badTerm (Vocab.build fold tags).table (joinLen f' + 1) (foldName fold (e0 :: es)) with
+      | none => exact hall ((badTerm_eq_none_iff _ _ _).mp hb)
+      | some x =>
+        rw [hb] at A
+        rw [A] at hres
+        cases hres
+
+theorem joinSlash_append (a b : Name) (ha : a ≠ []) (hb : b ≠ []) :
+    joinSlash (a ++ b) = joinSlash a ++ '/' :: joinSlash b := by
+  induction a with
+  | nil => exact absurd rfl ha
+  | cons c cs ih =>
+    cases cs with
+    | nil =>
+      cases b with
+      | nil => exact absurd rfl hb
+      | cons d ds => simp [joinSlash]
+    | cons d ds =>
+      have := ih (by simp)
+      simp only [List.cons_append] at this ⊢
+      simp [joinSlash, this]
+
+/-- **`long(short t) = long t`, `short(long t) = short t`, with value or extension.**  If any spelling
+of `n` followed by `/e₀/…` resolves to `(node, remainder)`, then the texts `short_tag` and `long_tag`
+built from that result (`shortName node ++ remainder`, `longName node ++ remainder`) resolve again to the
+same `(node, remainder)` — so converting them to long / short form gives the same strings again.
+`hsharp`: only `#` folds to what `#` folds to. -/
+theorem short_long_fixpoint (fold : Str → Str) (tags : List Name) (htc : TreeClosed tags)
+    (hd : (Vocab.build fold tags).dups = []) (hwf : WF (Vocab.build fold tags))
+    (hsharp : ∀ x, fold x = fold ['#'] → x = ['#'])
+    (i : Nat) (n : Name) (hi : tags[i]? = some n) (hv : ['#'] ∉ n) (hns : NoSlash n)
+    (j : Nat) (hj : j < n.length)
+    (f' : Name) (hcase : foldName fold f' = foldName fold (n.drop j)) (e0 : Str) (es : Name)
+    (hes : NoSlash (e0 :: es))
+    (hstop : (Vocab.build fold tags).table.get (foldName fold (n.drop j ++ [e0])) = none)
+    (i' : Nat) (r : Str)
+    (hres : findComps (Vocab.build fold tags) fold (f' ++ e0 :: es) = .found i' r) :
+    find (Vocab.build fold tags) fold ((Vocab.build fold tags).shortName i' ++ r) = .found i' r ∧
+    find (Vocab.build fold tags) fold ((Vocab.build fold tags).longName i' ++ r) = .found i' r := by
+  have hnne : n ≠ [] := by intro e; subst e; simp at hj
+  obtain ⟨last, hlast⟩ : ∃ last, n.getLast? = some last := by
+    cases h : n.getLast? with
+    | none => exact absurd (List.getLast?_eq_none_iff.mp h) hnne
+    | some x => exact ⟨x, rfl⟩
+  have hlm : last ∈ n := List.mem_of_getLast? hlast
+  have hlv : last ≠ ['#'] := fun e => hv (e ▸ hlm)
+  have hfold : fold last ≠ fold ['#'] := fun e => hlv (hsharp _ e)
+  obtain ⟨hr, hnode, hS, hL⟩ := forms_roundtrip_remainder fold tags htc hd hwf i n hi hv last hlast hfold
+    j hj f' hcase e0 es hstop [last] n rfl rfl i' r hres
+  -- the name of the answered node is `n` or `n/#`
+  have hname : (Vocab.build fold tags).name i' = n ∨ (Vocab.build fold tags).name i' = n ++ [['#']] := by
+    rcases hnode with h | ⟨_, h⟩
+    · right
+      unfold Vocab.valueChild at h
+      rw [build_name, hi] at h
+      simp only [Option.getD_some] at h
+      have h' : (Vocab.build fold tags).table.get (foldName fold (n.drop 0 ++ [['#']])) = some i' := by
+        simpa using h
+      obtain ⟨x, hx, hc⟩ := child_key fold tags htc hd hwf i n hi hv last hlast hfold 0 (by omega) ['#'] i'
+        (get_some_mem _ _ _ h')
+      rw [build_name, hc, hsharp x hx]; rfl
+    · left; rw [h, build_name, hi]; rfl
+  have hshort : (Vocab.build fold tags).shortName i' = last := by
+    unfold Vocab.shortName
+    rcases hname with h | h <;> rw [h]
+    · simp [hlast, hlv]
+    · simp [hlast]
+  have hlong : (Vocab.build fold tags).longName i' = joinSlash n := by
+    unfold Vocab.longName
+    rcases hname with h | h <;> rw [h]
+    · have : n.getLast? ≠ some ['#'] := by rw [hlast]; simpa using hlv
+      simp [this]
+    · simp
+  have hnsS : NoSlash ([last] ++ e0 :: es) := by
+    intro c hc
+    rcases List.mem_append.mp hc with h | h
+    · simp only [List.mem_singleton] at h; subst h; exact hns _ hlm
+    · exact hes c h
+  have hnsL : NoSlash (n ++ e0 :: es) := by
+    intro c hc
+    rcases List.mem_append.mp hc with h | h
+    · exact hns c h
+    · exact hes c h
+  constructor
+  · rw [hshort, hr, ← hr, ← hS, ← find_text _ _ _ (by simp) hnsS, hr]
+    rfl
+  · rw [hlong, hr, ← joinSlash_append n (e0 :: es) hnne (by simp), ← hr, ← hL,
+      find_text _ _ _ (by simp) hnsL]
+
+/-- **No aliasing.** Under `WF`, a text whose folded components are a key resolves to the one registered
+tag that has this folded spelling among its suffix forms: two different registered tags never share a
+spelling. -/
+theorem no_aliasing (fold : Str → Str) (tags : List Name) (hwf : WF (Vocab.build fold tags))
+    (comps : Name) (i : Nat)
+    (hget : (Vocab.build fold tags).table.get (foldName fold comps) = some i) :
+    (∃ r, findComps (Vocab.build fold tags) fold comps = .found i r) ∧
+    (i ∉ (Vocab.build fold tags).dups ∧
+      ∃ n, tags[i]? = some n ∧ ∃ f ∈ forms n, foldName fold comps = foldName fold f) ∧
+    (∀ j m g, tags[j]? = some m → j ∉ (Vocab.build fold tags).dups → g ∈ forms m →
+      foldName fold g = foldName fold comps → j = i) := by
+  refine ⟨?_, register_sound fold tags _ i (get_some_mem _ _ _ hget), ?_⟩
+  · unfold findComps
+    simp only [hget]
+    exact ⟨_, rfl⟩
+  · intro j m g hj hnd hg he
+    have := direct_hit fold tags j m hj hnd hwf g hg
+    rw [he, hget] at this
+    exact (Option.some.inj this).symm
+
+
+/-! non-vacuity of the growth theorems: vocabulary `A, A/B, A/C, A/C/#` (fold = identity) -/
+section NonVacuity
+def exTags : List Name := [[['A']], [['A'], ['B']], [['A'], ['C']], [['A'], ['C'], ['#']]]
+
+example : TreeClosed exTags := by decide
+example : ShortDistinct id exTags := by decide
+example : ¬ TreeClosed [[['A'], ['B']]] := by decide
+example : ¬ ShortDistinct id [[['A'], ['B']], [['C'], ['B']]] := by decide
+
+theorem exTC : TreeClosed exTags := by decide
+theorem exSD : ShortDistinct id exTags := by decide
+
+/-- the hypotheses of `extension_resolves` hold for `B/X/Y` (spelling `B` of `A/B`, extension `X/Y`) -/
+example : findComps (Vocab.build id exTags) id ([['B']] ++ ['X'] :: [['Y']]) =
+    .found 1 ('/' :: joinSlash (['X'] :: [['Y']])) :=
+  extension_resolves id exTags exTC (dups_nil_of_shortDistinct id exTags exSD)
+    (wf_of_shortDistinct id exTags exSD) 1 [['A'], ['B']] rfl (by decide) 1 (by decide) [['B']] rfl
+    ['X'] [['Y']] (by decide) (by decide) (by decide)
+
+/-- ... of `value_resolves` for `C/12` (spelling `C` of `A/C`, which has the `#` child 3) -/
+example : findComps (Vocab.build id exTags) id ([['C']] ++ ['1', '2'] :: []) =
+    .found 3 ('/' :: joinSlash (['1', '2'] :: [])) :=
+  value_resolves id exTags exTC (dups_nil_of_shortDistinct id exTags exSD)
+    (wf_of_shortDistinct id exTags exSD) 2 [['A'], ['C']] rfl (by decide) 1 (by decide) [['C']] rfl
+    ['1', '2'] [] (by decide) 3 (by decide)
+
+/-- ... and of `short_long_fixpoint`: `C/12` ↦ node 3, remainder `/12`; short and long text resolve back -/
+example : find (Vocab.build id exTags) id ((Vocab.build id exTags).shortName 3 ++ ['/', '1', '2']) =
+      .found 3 ['/', '1', '2'] ∧
+    find (Vocab.build id exTags) id ((Vocab.build id exTags).longName 3 ++ ['/', '1', '2']) =
+      .found 3 ['/', '1', '2'] :=
+  short_long_fixpoint id exTags exTC (dups_nil_of_shortDistinct id exTags exSD)
+    (wf_of_shortDistinct id exTags exSD) (fun _ h => h) 2 [['A'], ['C']] rfl (by decide) (by unfold NoSlash; decide) 1
+    (by decide) [['C']] rfl ['1', '2'] [] (by unfold NoSlash; decide) (by decide) 3 ['/', '1', '2'] (by decide)
+end NonVacuity
+
+end HedVerif.C03
